@@ -105,4 +105,330 @@ theorem vallado_dayNumber (y : Int) (mo d : Nat) (hy1 : 1901 ≤ y) (hy2 : y ≤
   · interval_cases mo <;> interval_cases r <;> (simp only []; split_ifs <;> omega)
   · interval_cases mo <;> interval_cases r <;> (simp only []; split_ifs <;> omega)
 
+
+
+structure ValidCivil (c : Civil) : Prop where
+  y1 : 1901 ≤ c.y
+  y2 : c.y ≤ 2099
+  mo1 : 1 ≤ c.mo
+  mo2 : c.mo ≤ 12
+  d1 : 1 ≤ c.d
+  d2 : c.d ≤ 31
+  h1 : 0 ≤ c.h
+  h2 : c.h ≤ 23
+  mi1 : 0 ≤ c.mi
+  mi2 : c.mi ≤ 59
+  s1 : 0 ≤ c.s
+  s2 : c.s ≤ 59
+  us : c.us = 0
+
+/-- Vallado's whole-day count of the date -/
+def dayCount (c : Civil) : Int := 367 * c.y - (7 * (c.y + (c.mo + 9) / 12)) / 4 + (275 * c.mo) / 9 + c.d
+/-- seconds since midnight -/
+def secOfDay (c : Civil) : Int := c.s + c.mi * 60 + c.h * 3600
+
+theorem half_grid (n : Int) : onGrid (-1) ((n : Rat) + 17210135 / 10) := by
+  refine ⟨2 * n + 3442027, ?_⟩
+  have : pow2 (-1) = 1 / 2 := by have := pow2_neg_nat 1; simpa using this
+  rw [this]; push_cast; ring
+
+theorem pow2_vals : pow2 52 = 4503599627370496 ∧ pow2 22 = 4194304 ∧ pow2 21 = 2097152 ∧ pow2 0 = 1 := by
+  refine ⟨?_, ?_, ?_, ?_⟩
+  · have := pow2_nat 52; simp only [Nat.cast_ofNat] at this; rw [this]; norm_num
+  · have := pow2_nat 22; simp only [Nat.cast_ofNat] at this; rw [this]; norm_num
+  · have := pow2_nat 21; simp only [Nat.cast_ofNat] at this; rw [this]; norm_num
+  · have := pow2_nat 0; simpa using this
+
+/-- the day fraction: `0 ≤ rn(S/86400) ≤ 1` for a second of the day -/
+theorem frac_bounds (S : Int) (h0 : 0 ≤ S) (h1 : S ≤ 86399) :
+    0 ≤ rn ((S : Rat) / 86400) ∧ rn ((S : Rat) / 86400) ≤ 1 := by
+  have x0 : (0 : Rat) ≤ (S : Rat) / 86400 := by
+    have : (0 : Rat) ≤ S := by exact_mod_cast h0
+    positivity
+  have x1 : (S : Rat) / 86400 < 1 := by
+    have : (S : Rat) ≤ 86399 := by exact_mod_cast h1
+    rw [div_lt_one (by norm_num)]; linarith
+  by_cases hz : (S : Rat) / 86400 = 0
+  · rw [hz, rn_zero]; exact ⟨le_refl _, by norm_num⟩
+  obtain ⟨s1, s2⟩ := expo_spec _ hz
+  have hk : expo ((S : Rat) / 86400) < 0 := by
+    have : pow2 (expo ((S : Rat) / 86400)) < pow2 0 := by
+      rw [pow2_vals.2.2.2]; rw [abs_of_nonneg x0] at s1; linarith
+    exact pow2_lt_iff.mp this
+  constructor
+  · have := rn_ge_of_onGrid _ 0 _ s1 s2 ⟨0, by simp⟩ x0
+    exact this
+  · have g1 : onGrid (expo ((S : Rat) / 86400) - 52) 1 := by
+      have := onGrid_intCast 1 (expo ((S : Rat) / 86400) - 52) (by omega)
+      simpa using this
+    exact rn_le_of_onGrid _ 1 _ s1 s2 g1 (le_of_lt x1)
+
+theorem jd_structure (c : Civil) (hv : ValidCivil c) :
+    jdOf c = rn (((dayCount c : Int) : Rat) + 17210135 / 10 + rn (((secOfDay c : Int) : Rat) / 86400)) := by
+  obtain ⟨y, mo, d, h, mi, s, us⟩ := c
+  obtain ⟨y1, y2, mo1, mo2, d1, d2, h1, h2, mi1, mi2, s1, s2, hus⟩ := hv
+  simp only at y1 y2 mo1 mo2 d1 d2 h1 h2 mi1 mi2 s1 s2 hus
+  subst hus
+  obtain ⟨hf1, hf2⟩ := mo_floors mo mo1 mo2
+  have p52 := pow2_vals.1
+  -- the second handed to getJulianDate
+  have hsec : secFloat ⟨y, mo, d, h, mi, s, 0⟩ = (s : Rat) := by
+    simp only [secFloat, fadd, fdiv]
+    have : ((0 : Int) : Rat) / 1000000 = 0 := by norm_num
+    rw [this, rn_zero, add_zero]
+    exact rn_intB s (by omega) (by omega)
+  -- the day part
+  have hmDay : fadd (d : Rat) (17210135 / 10) = (d : Rat) + 17210135 / 10 := by
+    simp only [fadd]
+    apply rn_grid _ (-1) (half_grid d)
+    have : pow2 (-1 + 53) = 4503599627370496 := by norm_num; exact p52
+    rw [this]
+    have hd1 : (1 : Rat) ≤ d := by exact_mod_cast d1
+    have hd2 : (d : Rat) ≤ 31 := by exact_mod_cast d2
+    exact abs_lt_of_bounds (lo := 1) (hi := 1721045) (by linarith) (by linarith) (by norm_num) (by norm_num)
+  have hyc : fadd (y : Rat) (ffloor (fdiv ((mo : Rat) + 9) 12)) = ((y + (mo + 9) / 12 : Int) : Rat) := by
+    rw [hf1]; simp only [fadd]
+    have : (y : Rat) + (((mo + 9) / 12 : Int) : Rat) = ((y + (mo + 9) / 12 : Int) : Rat) := by push_cast; ring
+    rw [this]; exact rn_intB _ (by omega) (by omega)
+  have h7 : fmul 7 (((y + (mo + 9) / 12 : Int) : Rat)) = ((7 * (y + (mo + 9) / 12) : Int) : Rat) := by
+    simp only [fmul]
+    have : (7 : Rat) * ((y + (mo + 9) / 12 : Int) : Rat) = ((7 * (y + (mo + 9) / 12) : Int) : Rat) := by push_cast; ring
+    rw [this]; exact rn_intB _ (by omega) (by omega)
+  have hq : fmul (((7 * (y + (mo + 9) / 12) : Int) : Rat)) (1 / 4) = ((7 * (y + (mo + 9) / 12) : Int) : Rat) / 4 := by
+    simp only [fmul]
+    have e : ((7 * (y + (mo + 9) / 12) : Int) : Rat) * (1 / 4) = ((7 * (y + (mo + 9) / 12) : Int) : Rat) / 4 := by ring
+    rw [e]
+    apply rn_grid _ (-2)
+    · refine ⟨7 * (y + (mo + 9) / 12), ?_⟩
+      have : pow2 (-2) = 1 / 4 := by have := pow2_neg_nat 2; norm_num at this; simpa using this
+      rw [this]; ring
+    · have : pow2 (-2 + 53) = 2251799813685248 := by
+        have := pow2_nat 51; simp only [Nat.cast_ofNat] at this; norm_num; rw [this]; norm_num
+      rw [this]
+      have b1 : (0 : Rat) ≤ ((7 * (y + (mo + 9) / 12) : Int) : Rat) := by exact_mod_cast (by omega : (0 : Int) ≤ 7 * (y + (mo + 9) / 12))
+      have b2 : ((7 * (y + (mo + 9) / 12) : Int) : Rat) ≤ 20000 := by exact_mod_cast (by omega : 7 * (y + (mo + 9) / 12) ≤ (20000 : Int))
+      exact abs_lt_of_bounds (lo := 0) (hi := 5000) (by positivity) (by linarith) (by norm_num) (by norm_num)
+  have ha : ffloor (((7 * (y + (mo + 9) / 12) : Int) : Rat) / 4) = (((7 * (y + (mo + 9) / 12)) / 4 : Int) : Rat) := by
+    simp only [ffloor]
+    have := floor_int_div (7 * (y + (mo + 9) / 12)) 4
+    simp only [Nat.cast_ofNat] at this
+    rw [this]
+  have hsub : fsub (367 * (y : Rat)) ((((7 * (y + (mo + 9) / 12)) / 4 : Int)) : Rat)
+      = ((367 * y - (7 * (y + (mo + 9) / 12)) / 4 : Int) : Rat) := by
+    simp only [fsub]
+    have : 367 * (y : Rat) - ((((7 * (y + (mo + 9) / 12)) / 4 : Int)) : Rat) = ((367 * y - (7 * (y + (mo + 9) / 12)) / 4 : Int) : Rat) := by
+      push_cast; ring
+    rw [this]; exact rn_intB _ (by omega) (by omega)
+  have hadd : fadd (((367 * y - (7 * (y + (mo + 9) / 12)) / 4 : Int) : Rat)) ((((275 * mo) / 9 : Int)) : Rat)
+      = ((367 * y - (7 * (y + (mo + 9) / 12)) / 4 + (275 * mo) / 9 : Int) : Rat) := by
+    simp only [fadd]
+    have : (((367 * y - (7 * (y + (mo + 9) / 12)) / 4 : Int) : Rat)) + ((((275 * mo) / 9 : Int)) : Rat)
+        = ((367 * y - (7 * (y + (mo + 9) / 12)) / 4 + (275 * mo) / 9 : Int) : Rat) := by push_cast; ring
+    rw [this]; exact rn_intB _ (by omega) (by omega)
+  have hj : fadd (((367 * y - (7 * (y + (mo + 9) / 12)) / 4 + (275 * mo) / 9 : Int) : Rat)) ((d : Rat) + 17210135 / 10)
+      = ((367 * y - (7 * (y + (mo + 9) / 12)) / 4 + (275 * mo) / 9 + d : Int) : Rat) + 17210135 / 10 := by
+    simp only [fadd]
+    have : (((367 * y - (7 * (y + (mo + 9) / 12)) / 4 + (275 * mo) / 9 : Int) : Rat)) + ((d : Rat) + 17210135 / 10)
+        = ((367 * y - (7 * (y + (mo + 9) / 12)) / 4 + (275 * mo) / 9 + d : Int) : Rat) + 17210135 / 10 := by push_cast; ring
+    rw [this]
+    apply rn_grid _ (-1) (half_grid _)
+    have : pow2 (-1 + 53) = 4503599627370496 := by norm_num; exact p52
+    rw [this]
+    have b1 : (0 : Rat) ≤ ((367 * y - (7 * (y + (mo + 9) / 12)) / 4 + (275 * mo) / 9 + d : Int) : Rat) := by
+      exact_mod_cast (by omega : (0 : Int) ≤ 367 * y - (7 * (y + (mo + 9) / 12)) / 4 + (275 * mo) / 9 + d)
+    have b2 : ((367 * y - (7 * (y + (mo + 9) / 12)) / 4 + (275 * mo) / 9 + d : Int) : Rat) ≤ 1000000 := by
+      exact_mod_cast (by omega : 367 * y - (7 * (y + (mo + 9) / 12)) / 4 + (275 * mo) / 9 + d ≤ (1000000 : Int))
+    exact abs_lt_of_bounds (lo := 0) (hi := 3000000) (by linarith) (by linarith) (by norm_num) (by norm_num)
+  have hS1 : fadd (s : Rat) ((mi : Rat) * 60) = ((s + mi * 60 : Int) : Rat) := by
+    simp only [fadd]
+    have : (s : Rat) + (mi : Rat) * 60 = ((s + mi * 60 : Int) : Rat) := by push_cast; ring
+    rw [this]; exact rn_intB _ (by omega) (by omega)
+  have hS2 : fadd (((s + mi * 60 : Int) : Rat)) ((h : Rat) * 3600) = ((s + mi * 60 + h * 3600 : Int) : Rat) := by
+    simp only [fadd]
+    have : ((s + mi * 60 : Int) : Rat) + (h : Rat) * 3600 = ((s + mi * 60 + h * 3600 : Int) : Rat) := by push_cast; ring
+    rw [this]; exact rn_intB _ (by omega) (by omega)
+  have hfr := frac_bounds (s + mi * 60 + h * 3600) (by omega) (by omega)
+  simp only [jdOf, getJulianDate]
+  rw [hsec, hyc, h7, hq, ha, hf2, hsub, hadd, hmDay, hj, hS1, hS2]
+  simp only [fdiv, not_lt.mpr hfr.2, if_false, fadd, dayCount, secOfDay]
+
+theorem pow2_small : pow2 (-32) = 1 / 4294967296 ∧ pow2 (-54) = 1 / 18014398509481984 ∧ pow2 (-31) = 1 / 2147483648 := by
+  refine ⟨?_, ?_, ?_⟩
+  · have := pow2_neg_nat 32; simp only [Nat.cast_ofNat] at this; rw [this]; norm_num
+  · have := pow2_neg_nat 54; simp only [Nat.cast_ofNat] at this; rw [this]; norm_num
+  · have := pow2_neg_nat 31; simp only [Nat.cast_ofNat] at this; rw [this]; norm_num
+
+/-- the Julian date of a whole second: `jd = J + g` with `J` the (exact) date part and `g` a day fraction on the
+grid `2^-31` within `2^-32 + 2^-54` of `S/86400` -/
+theorem jd_facts (N S : Int) (hN1 : 690000 ≤ N) (hN2 : N ≤ 770000) (hS0 : 0 ≤ S) (hS1 : S ≤ 86399) :
+    let jd := rn ((N : Rat) + 17210135 / 10 + rn ((S : Rat) / 86400))
+    let g := jd - ((N : Rat) + 17210135 / 10)
+    0 ≤ g ∧ g < 1 ∧ onGrid (-31) g ∧ onGrid (-31) jd ∧ |g - (S : Rat) / 86400| ≤ pow2 (-32) + pow2 (-54) := by
+  intro jd g
+  obtain ⟨f0, f1⟩ := frac_bounds S hS0 hS1
+  have hNr1 : (690000 : Rat) ≤ N := by exact_mod_cast hN1
+  have hNr2 : (N : Rat) ≤ 770000 := by exact_mod_cast hN2
+  obtain ⟨_, p22, p21, p0⟩ := pow2_vals
+  obtain ⟨q32, q54, _⟩ := pow2_small
+  have hXpos : 0 < (N : Rat) + 17210135 / 10 + rn ((S : Rat) / 86400) := by linarith
+  have h1 : pow2 21 ≤ |(N : Rat) + 17210135 / 10 + rn ((S : Rat) / 86400)| := by
+    rw [abs_of_pos hXpos, p21]; linarith
+  have h2 : |(N : Rat) + 17210135 / 10 + rn ((S : Rat) / 86400)| < pow2 (21 + 1) := by
+    rw [abs_of_pos hXpos]; norm_num; rw [p22]; linarith
+  obtain ⟨e1, gr⟩ := rn_err _ 21 h1 h2
+  have gr' : onGrid (-31) jd := by simpa using gr
+  have gJ : onGrid (-31) ((N : Rat) + 17210135 / 10) := onGrid_mono (by norm_num) (half_grid N)
+  have gJ' : onGrid (21 - 52) ((N : Rat) + 17210135 / 10) := by simpa using gJ
+  have hge : (N : Rat) + 17210135 / 10 ≤ jd := rn_ge_of_onGrid _ _ 21 h1 h2 gJ' (by linarith)
+  have x0 : (0 : Rat) ≤ (S : Rat) / 86400 := by
+    have : (0 : Rat) ≤ S := by exact_mod_cast hS0
+    positivity
+  have x1 : (S : Rat) / 86400 ≤ 86399 / 86400 := by
+    have : (S : Rat) ≤ 86399 := by exact_mod_cast hS1
+    rw [div_le_div_iff_of_pos_right (by norm_num)]; exact this
+  have e2 : |rn ((S : Rat) / 86400) - (S : Rat) / 86400| ≤ pow2 (-54) := by
+    have := rn_err_le ((S : Rat) / 86400) (-1) (by
+      rw [abs_of_nonneg x0]; norm_num; rw [p0]; linarith)
+    simpa using this
+  have e1' : |jd - ((N : Rat) + 17210135 / 10 + rn ((S : Rat) / 86400))| ≤ pow2 (-32) := by simpa using e1
+  have hdiff : |g - (S : Rat) / 86400| ≤ pow2 (-32) + pow2 (-54) := by
+    have : g - (S : Rat) / 86400 = (jd - ((N : Rat) + 17210135 / 10 + rn ((S : Rat) / 86400))) + (rn ((S : Rat) / 86400) - (S : Rat) / 86400) := by
+      simp only [g]; ring
+    rw [this]
+    exact le_trans (abs_add_le _ _) (add_le_add e1' e2)
+  refine ⟨by simp only [g]; linarith, ?_, onGrid_sub gr' gJ, gr', hdiff⟩
+  have := (abs_le.mp hdiff).2
+  rw [q32, q54] at this
+  linarith
+
+
+/-- the date part in days since 1899-12-31: day of year + whole years -/
+theorem dayCount_doy (y : Int) (mo : Nat) (d : Int) (leap : Bool) (hy1 : 1901 ≤ y) (hy2 : y ≤ 2099)
+    (h1 : 1 ≤ mo) (h2 : mo ≤ 12) (hl : leap = true ↔ (y - 1900) % 4 = 0) :
+    367 * y - (7 * (y + ((mo : Int) + 9) / 12)) / 4 + (275 * (mo : Int)) / 9 + d - 694006
+      = (cum leap mo + d) + 365 * (y - 1900) + (y - 1901) / 4 := by
+  obtain ⟨k, r, hk, hr0, hr3⟩ : ∃ k r : Int, y = 4 * k + r ∧ 0 ≤ r ∧ r ≤ 3 := ⟨y / 4, y % 4, by omega, by omega, by omega⟩
+  subst hk
+  cases leap with
+  | true =>
+    have hm : (4 * k + r - 1900) % 4 = 0 := hl.mp rfl
+    have hr : r = 0 := by omega
+    subst hr
+    interval_cases mo <;> simp [cum, monthLenT] <;> omega
+  | false =>
+    have hm : ¬ (4 * k + r - 1900) % 4 = 0 := fun h => by simpa using hl.mpr h
+    have hr : r ≠ 0 := by omega
+    interval_cases mo <;> simp [cum, monthLenT] <;> omega
+
+theorem cum_bounds (leap : Bool) (mo : Nat) (d : Int) (h1 : 1 ≤ mo) (h2 : mo ≤ 12) (hd1 : 1 ≤ d) (hd2 : d ≤ monthLenT leap mo) :
+    1 ≤ cum leap mo + d ∧ cum leap mo + d ≤ 365 + (if leap then 1 else 0) := by
+  cases leap <;> interval_cases mo <;> simp [cum, monthLenT] at hd2 ⊢ <;> omega
+
+
+theorem pow2_more : pow2 53 = 9007199254740992 ∧ pow2 8 = 256 ∧ pow2 (-46) = 1 / 70368744177664 ∧ pow2 22 = 4194304 := by
+  refine ⟨?_, ?_, ?_, pow2_vals.2.1⟩
+  · have := pow2_nat 53; simp only [Nat.cast_ofNat] at this; rw [this]; norm_num
+  · have := pow2_nat 8; simp only [Nat.cast_ofNat] at this; rw [this]; norm_num
+  · have := pow2_neg_nat 46; simp only [Nat.cast_ofNat] at this; rw [this]; norm_num
+
+/-- a value on the grid `2^-31` below `2^21` is representable -/
+theorem rn_grid31 (x : Rat) (hx : onGrid (-31) x) (hb : |x| < 2097152) : rn x = x := by
+  apply rn_grid x (-31) hx
+  have : pow2 (-31 + 53) = 4194304 := by norm_num; exact pow2_vals.2.1
+  rw [this]; linarith
+
+/-- `tempVal = jd - 2415019.5` is exact -/
+theorem tempVal_exact (N : Int) (g : Rat) (hN1 : 690000 ≤ N) (hN2 : N ≤ 770000) (g0 : 0 ≤ g) (g1 : g < 1) (gg : onGrid (-31) g) :
+    fsub ((N : Rat) + 17210135 / 10 + g) (24150195 / 10) = ((N - 694006 : Int) : Rat) + g := by
+  simp only [fsub]
+  have e : (N : Rat) + 17210135 / 10 + g - 24150195 / 10 = ((N - 694006 : Int) : Rat) + g := by push_cast; ring
+  rw [e]
+  have hNr1 : (690000 : Rat) ≤ N := by exact_mod_cast hN1
+  have hNr2 : (N : Rat) ≤ 770000 := by exact_mod_cast hN2
+  apply rn_grid31
+  · exact onGrid_add (onGrid_intCast _ _ (by norm_num)) gg
+  · push_cast
+    exact abs_lt_of_bounds (lo := -5000) (hi := 80000) (by linarith) (by linarith) (by norm_num) (by norm_num)
+
+/-- the first guess of the year is the year or the next one -/
+theorem year_guess (n k : Int) (g : Rat) (hk1 : 1 ≤ k) (hk2 : k ≤ 199) (g0 : 0 ≤ g) (g1 : g < 1)
+    (hlo : 365 * k + (k - 1) / 4 + 1 ≤ n) (hhi : n ≤ 365 * k + (k - 1) / 4 + 366) :
+    (fdiv ((n : Rat) + g) (36525 / 100)).floor = k ∨ (fdiv ((n : Rat) + g) (36525 / 100)).floor = k + 1 := by
+  obtain ⟨_, p8, p45, _⟩ := pow2_more
+  simp only [fdiv]
+  have hk1r : (1 : Rat) ≤ k := by exact_mod_cast hk1
+  have hk2r : (k : Rat) ≤ 199 := by exact_mod_cast hk2
+  -- exact bounds on the quotient
+  have hn_lo : (36525 / 100 : Rat) * k ≤ n := by
+    have : 4 * n ≥ 1461 * k := by omega
+    have : (4 : Rat) * n ≥ 1461 * k := by exact_mod_cast this
+    linarith
+  have hn_hi : (n : Rat) ≤ (36525 / 100 : Rat) * k + 366 := by
+    have : 4 * n ≤ 1461 * k + 1464 := by omega
+    have : (4 : Rat) * n ≤ 1461 * k + 1464 := by exact_mod_cast this
+    linarith
+  have hq_lo : (k : Rat) ≤ ((n : Rat) + g) / (36525 / 100) := by
+    rw [le_div_iff₀ (by norm_num)]; linarith
+  have hq_hi : ((n : Rat) + g) / (36525 / 100) < (k : Rat) + 1 + 1 / 100 := by
+    rw [div_lt_iff₀ (by norm_num)]; linarith
+  have hq_pos : 0 < ((n : Rat) + g) / (36525 / 100) := by linarith
+  have hq_ne : ((n : Rat) + g) / (36525 / 100) ≠ 0 := ne_of_gt hq_pos
+  obtain ⟨s1, s2⟩ := expo_spec _ hq_ne
+  have hex : expo (((n : Rat) + g) / (36525 / 100)) < 8 := by
+    have : pow2 (expo (((n : Rat) + g) / (36525 / 100))) < pow2 8 := by
+      rw [p8]; rw [abs_of_pos hq_pos] at s1; linarith
+    exact pow2_lt_iff.mp this
+  have lo : (k : Rat) ≤ rn (((n : Rat) + g) / (36525 / 100)) :=
+    rn_ge_of_onGrid _ _ _ s1 s2 (onGrid_intCast k _ (by omega)) hq_lo
+  have err := rn_err_le (((n : Rat) + g) / (36525 / 100)) 7 (by
+    rw [abs_of_pos hq_pos]; norm_num; rw [p8]; linarith)
+  have err' : |rn (((n : Rat) + g) / (36525 / 100)) - ((n : Rat) + g) / (36525 / 100)| ≤ pow2 (-46) := by simpa using err
+  have hi : rn (((n : Rat) + g) / (36525 / 100)) < (k : Rat) + 2 := by
+    have := (abs_le.mp err').2
+    rw [p45] at this; linarith
+  have f1 : k ≤ (rn (((n : Rat) + g) / (36525 / 100))).floor := by
+    have : (rn (((n : Rat) + g) / (36525 / 100))).floor = ⌊rn (((n : Rat) + g) / (36525 / 100))⌋ := rfl
+    rw [this]; exact Int.le_floor.mpr lo
+  have f2 : (rn (((n : Rat) + g) / (36525 / 100))).floor < k + 2 := by
+    have : (rn (((n : Rat) + g) / (36525 / 100))).floor = ⌊rn (((n : Rat) + g) / (36525 / 100))⌋ := rfl
+    rw [this]; exact Int.floor_lt.mpr (by push_cast; exact hi)
+  omega
+
+/-- the day of year for a candidate year `1900 + j` is computed exactly -/
+theorem doyOf_exact (n j : Int) (g : Rat) (hj1 : 1 ≤ j) (hj2 : j ≤ 201) (hn1 : 0 ≤ n) (hn2 : n ≤ 80000)
+    (g0 : 0 ≤ g) (g1 : g < 1) (gg : onGrid (-31) g) :
+    fsub ((n : Rat) + g) ((((1900 + j - 1900) * 365 : Int) : Rat) + ffloor (fmul (((1900 + j : Int) : Rat) - 1901) (1 / 4)))
+      = ((n - (365 * j + (j - 1) / 4) : Int) : Rat) + g := by
+  have hq : fmul (((1900 + j : Int) : Rat) - 1901) (1 / 4) = ((j - 1 : Int) : Rat) / 4 := by
+    simp only [fmul]
+    have e : (((1900 + j : Int) : Rat) - 1901) * (1 / 4) = ((j - 1 : Int) : Rat) / 4 := by push_cast; ring
+    rw [e]
+    apply rn_grid _ (-2)
+    · refine ⟨j - 1, ?_⟩
+      have : pow2 (-2) = 1 / 4 := by have := pow2_neg_nat 2; norm_num at this; simpa using this
+      rw [this]; ring
+    · have : pow2 (-2 + 53) = 2251799813685248 := by
+        have := pow2_nat 51; simp only [Nat.cast_ofNat] at this; norm_num; rw [this]; norm_num
+      rw [this]
+      have b1 : (0 : Rat) ≤ ((j - 1 : Int) : Rat) := by exact_mod_cast (by omega : (0 : Int) ≤ j - 1)
+      have b2 : ((j - 1 : Int) : Rat) ≤ 200 := by exact_mod_cast (by omega : j - 1 ≤ (200 : Int))
+      exact abs_lt_of_bounds (lo := 0) (hi := 50) (by positivity) (by linarith) (by norm_num) (by norm_num)
+  have hfl : ffloor (((j - 1 : Int) : Rat) / 4) = (((j - 1) / 4 : Int) : Rat) := by
+    simp only [ffloor]
+    have := floor_int_div (j - 1) 4
+    simp only [Nat.cast_ofNat] at this
+    rw [this]
+  rw [hq, hfl]
+  simp only [fsub]
+  have e : (n : Rat) + g - ((((1900 + j - 1900) * 365 : Int) : Rat) + (((j - 1) / 4 : Int) : Rat))
+      = ((n - (365 * j + (j - 1) / 4) : Int) : Rat) + g := by push_cast; ring
+  rw [e]
+  apply rn_grid31
+  · exact onGrid_add (onGrid_intCast _ _ (by norm_num)) gg
+  · have b1 : (-80000 : Rat) ≤ ((n - (365 * j + (j - 1) / 4) : Int) : Rat) := by
+      exact_mod_cast (by omega : (-80000 : Int) ≤ n - (365 * j + (j - 1) / 4))
+    have b2 : ((n - (365 * j + (j - 1) / 4) : Int) : Rat) ≤ 80000 := by
+      exact_mod_cast (by omega : n - (365 * j + (j - 1) / 4) ≤ (80000 : Int))
+    exact abs_lt_of_bounds (lo := -80000) (hi := 80001) (by linarith) (by linarith) (by norm_num) (by norm_num)
+
 end RV.Proofs.Time
